@@ -31,7 +31,8 @@ type Engine struct {
 	globalIDs map[string]int
 	fnIDs     map[*ssa.Function]int
 	fnByKey   map[string]*ssa.Function
-	modsCache map[*ssa.Function][]string
+	modsCache map[*ssa.Function]*fnMods
+	loopBusy  map[*ssa.BasicBlock]bool
 	modsBusy  map[*ssa.Function]bool
 	loopModsCache map[*ssa.BasicBlock][]string
 	guardIdx  map[string]guardedField   // "F|type.field" -> guard
@@ -49,7 +50,7 @@ func NewEngine(repo, verif string) (*Engine, error) {
 	e := &Engine{repo: repo, verif: verif, loops: map[*ssa.Function]*loopInfoT{}, ordinals: map[string]map[ssa.Instruction]int{},
 		heapSorts: map[string]Sort{}, escFields: map[string]bool{}, closures: map[string]*closureInfo{}, boxes: map[string]Value{},
 		globalIDs: map[string]int{}, fnIDs: map[*ssa.Function]int{}, fnByKey: map[string]*ssa.Function{},
-		modsCache: map[*ssa.Function][]string{}, modsBusy: map[*ssa.Function]bool{}, loopModsCache: map[*ssa.BasicBlock][]string{},
+		modsCache: map[*ssa.Function]*fnMods{}, loopBusy: map[*ssa.BasicBlock]bool{}, modsBusy: map[*ssa.Function]bool{}, loopModsCache: map[*ssa.BasicBlock][]string{},
 		guardIdx: map[string]guardedField{}, guardByMu: map[string][]guardedField{}, localTypes: map[*ssa.Function]map[string]types.Type{},
 		repoPkgPaths: map[string]bool{}, inlineExtern: map[string]bool{}, initConsts: map[string]func(c *Ctx, s *State) (Value, bool){}}
 	cfg := &packages.Config{Mode: packages.LoadAllSyntax, Dir: repo, BuildFlags: []string{"-tags=verif"},
@@ -274,6 +275,14 @@ func (e *Engine) localType(fn *ssa.Function, name string) types.Type {
 	m, ok := e.localTypes[fn]
 	if !ok {
 		m = map[string]types.Type{}
+		for _, p := range fn.Params {
+			m[p.Name()] = p.Type()
+		}
+		for _, fv := range fn.FreeVars {
+			if pt, ok := fv.Type().(*types.Pointer); ok {
+				m[fv.Name()] = pt.Elem()
+			}
+		}
 		for _, b := range fn.Blocks {
 			for _, in := range b.Instrs {
 				switch x := in.(type) {
@@ -284,7 +293,7 @@ func (e *Engine) localType(fn *ssa.Function, name string) types.Type {
 						}
 					}
 				case *ssa.Alloc:
-					if x.Comment != "" {
+					if x.Comment != "" && x.Comment != "complit" && x.Comment != "varargs" {
 						if _, seen := m[x.Comment]; !seen {
 							m[x.Comment] = x.Type().(*types.Pointer).Elem()
 						}
@@ -305,18 +314,33 @@ func (e *Engine) localType(fn *ssa.Function, name string) types.Type {
 
 // ---------- effects discovery (frames are inferred, not declared) ----------
 
-// loopMods: heaps written by the body of the loop with the given header (scout run).
-func (e *Engine) loopMods(c *Ctx, s *State, header *ssa.BasicBlock) []string {
-	if m, ok := e.loopModsCache[header]; ok {
-		return m
+// Mods describes what a piece of code may write: whole heaps, and single objects of heaps.
+type Mods struct {
+	Whole []string
+	At    []ModAt
+}
+
+type ModAt struct {
+	Heap string
+	Base Term // loops: the object; functions: a term over the formal input symbols
+}
+
+// loopMods: what the body of the loop with the given header may write (scout run on a copy
+// of the current path, so object terms are meaningful for this path).
+func (e *Engine) loopMods(c *Ctx, s *State, header *ssa.BasicBlock) Mods {
+	if e.loopBusy[header] {
+		return Mods{}
 	}
-	e.loopModsCache[header] = nil // recursion guard
+	e.loopBusy[header] = true
+	defer delete(e.loopBusy, header)
 	sc := s.clone()
-	savedW, savedScout := c.written, c.scout
+	savedW, savedWA, savedScout, savedSF := c.written, c.writtenAt, c.scout, c.scoutFresh
 	savedStop, savedDepth := c.scoutBody, c.scoutDepth
 	savedLR := c.localRefs
 	c.localRefs = nil
 	c.written = map[string]bool{}
+	c.writtenAt = nil
+	c.scoutFresh = c.fresh
 	c.scout++
 	fr := sc.top()
 	fr.openLoops[header] = true
@@ -325,36 +349,94 @@ func (e *Engine) loopMods(c *Ctx, s *State, header *ssa.BasicBlock) []string {
 	c.resumeHeader = header
 	var out []retPath
 	c.execBlock(sc, header, nil, &out)
-	mods := sortedBools(c.written)
-	c.written, c.scout = savedW, savedScout
-	c.scoutBody, c.scoutDepth = savedStop, savedDepth
-	c.localRefs = savedLR
-	if c.written != nil {
-		for _, m := range mods {
-			c.written[m] = true
+	m := Mods{Whole: sortedBools(c.written)}
+	for _, h := range sortedKeys(c.writtenAt) {
+		if c.written[h] {
+			continue
+		}
+		for _, b := range sortedKeys(c.writtenAt[h]) {
+			m.At = append(m.At, ModAt{h, c.writtenAt[h][b]})
 		}
 	}
-	e.loopModsCache[header] = mods
-	return mods
+	c.written, c.writtenAt, c.scout, c.scoutFresh = savedW, savedWA, savedScout, savedSF
+	c.scoutBody, c.scoutDepth = savedStop, savedDepth
+	c.localRefs = savedLR
+	c.mergeMods(m)
+	return m
 }
 
-// modsOf: heaps a function may write (scout run of its body from a blank state).
-func (e *Engine) modsOf(c *Ctx, fn *ssa.Function) []string {
+// mergeMods records the effects of an inner run in the enclosing effects-discovery run.
+func (c *Ctx) mergeMods(m Mods) {
+	if c.written == nil {
+		return
+	}
+	for _, h := range m.Whole {
+		c.written[h] = true
+	}
+	for _, a := range m.At {
+		if c.isLocalRef(a.Base) {
+			continue
+		}
+		if c.stableBase(a.Base) {
+			if c.writtenAt == nil {
+				c.writtenAt = map[string]map[string]Term{}
+			}
+			if c.writtenAt[a.Heap] == nil {
+				c.writtenAt[a.Heap] = map[string]Term{}
+			}
+			c.writtenAt[a.Heap][a.Base.S] = a.Base
+		} else {
+			c.written[a.Heap] = true
+		}
+	}
+}
+
+type fnMods struct {
+	Whole   []string
+	At      []ModAt  // bases are terms over formal placeholder symbols "formal!k"
+	Formals []string // the placeholder symbols, in flattened-input order
+}
+
+func flattenAll(v Value, out *[]Term) {
+	switch x := v.(type) {
+	case Sc:
+		*out = append(*out, x.T)
+	case Sl:
+		*out = append(*out, x.Arr, x.Off, x.Len, x.Cap)
+	case If:
+		*out = append(*out, x.Typ, x.Val)
+	case St:
+		for _, f := range x.F {
+			flattenAll(f, out)
+		}
+	case Tu:
+		for _, f := range x.E {
+			flattenAll(f, out)
+		}
+	case Ar:
+		*out = append(*out, x.Elems)
+	}
+}
+
+// modsOf: what a function may write (scout run of its body from a blank state); object-precise
+// for objects named by the function's inputs.
+func (e *Engine) modsOf(c *Ctx, fn *ssa.Function) *fnMods {
 	if m, ok := e.modsCache[fn]; ok {
 		return m
 	}
 	if e.modsBusy[fn] || len(fn.Blocks) == 0 {
-		return nil
+		return &fnMods{}
 	}
 	e.modsBusy[fn] = true
 	defer delete(e.modsBusy, fn)
 	s := &State{heap: map[string]Term{}}
-	savedW, savedScout, savedDepth := c.written, c.scout, c.depth
+	savedW, savedWA, savedScout, savedDepth, savedSF := c.written, c.writtenAt, c.scout, c.depth, c.scoutFresh
 	savedStop, savedSD := c.scoutBody, c.scoutDepth
 	c.scoutBody, c.scoutDepth = nil, 0
 	savedLR := c.localRefs
 	c.localRefs = nil
 	c.written = map[string]bool{}
+	c.writtenAt = nil
 	c.scout++
 	c.depth = 0
 	var args []Value
@@ -365,18 +447,175 @@ func (e *Engine) modsOf(c *Ctx, fn *ssa.Function) []string {
 	for _, fv := range fn.FreeVars {
 		binds = append(binds, c.freshValue(s, fv.Type(), "sf|"+fv.Name()))
 	}
+	c.scoutFresh = c.fresh
+	var formals []Term
+	for _, a := range args {
+		flattenAll(a, &formals)
+	}
+	for _, b := range binds {
+		flattenAll(b, &formals)
+	}
 	c.runFunction(s, fn, args, binds)
-	mods := sortedBools(c.written)
-	c.written, c.scout, c.depth = savedW, savedScout, savedDepth
-	c.scoutBody, c.scoutDepth = savedStop, savedSD
-	c.localRefs = savedLR
-	if c.written != nil {
-		for _, m := range mods {
-			c.written[m] = true
+	fm := &fnMods{Whole: sortedBools(c.written)}
+	for _, f := range formals {
+		fm.Formals = append(fm.Formals, f.S)
+	}
+	isFormal := map[string]bool{}
+	for _, f := range fm.Formals {
+		isFormal[f] = true
+	}
+	for _, h := range sortedKeys(c.writtenAt) {
+		if c.written[h] {
+			continue
+		}
+		for _, bk := range sortedKeys(c.writtenAt[h]) {
+			b := c.writtenAt[h][bk]
+			// the base must be expressible over the formals: every symbol with a fresh suffix must be a formal
+			ok := true
+			for _, tokn := range tokenize(b.S) {
+				if freshNumRe.MatchString(tokn) && !isFormal[tokn] {
+					ok = false
+				}
+			}
+			if ok {
+				fm.At = append(fm.At, ModAt{h, b})
+			} else {
+				fm.Whole = append(fm.Whole, h)
+			}
 		}
 	}
-	e.modsCache[fn] = mods
-	return mods
+	fm.Whole = uniqSorted(fm.Whole)
+	c.written, c.writtenAt, c.scout, c.depth, c.scoutFresh = savedW, savedWA, savedScout, savedDepth, savedSF
+	c.scoutBody, c.scoutDepth = savedStop, savedSD
+	c.localRefs = savedLR
+	e.modsCache[fn] = fm
+	return fm
+}
+
+func uniqSorted(xs []string) []string {
+	sort.Strings(xs)
+	var out []string
+	for i, x := range xs {
+		if i == 0 || x != xs[i-1] {
+			out = append(out, x)
+		}
+	}
+	return out
+}
+
+// tokenize splits an SMT term into symbols (respecting |quoted| symbols).
+func tokenize(s string) []string {
+	var out []string
+	i := 0
+	for i < len(s) {
+		switch s[i] {
+		case ' ', '(', ')':
+			i++
+		case '|':
+			j := strings.IndexByte(s[i+1:], '|')
+			if j < 0 {
+				return append(out, s[i:])
+			}
+			out = append(out, s[i:i+j+2])
+			i += j + 2
+		default:
+			j := i
+			for j < len(s) && s[j] != ' ' && s[j] != '(' && s[j] != ')' {
+				j++
+			}
+			out = append(out, s[i:j])
+			i = j
+		}
+	}
+	return out
+}
+
+// substTerm replaces symbols in a term according to the map (token-wise).
+func substTerm(t Term, m map[string]string) Term {
+	var sb strings.Builder
+	s := t.S
+	i := 0
+	for i < len(s) {
+		switch s[i] {
+		case ' ', '(', ')':
+			sb.WriteByte(s[i])
+			i++
+		case '|':
+			j := strings.IndexByte(s[i+1:], '|')
+			if j < 0 {
+				sb.WriteString(s[i:])
+				i = len(s)
+				break
+			}
+			tokn := s[i : i+j+2]
+			if r, ok := m[tokn]; ok {
+				sb.WriteString(r)
+			} else {
+				sb.WriteString(tokn)
+			}
+			i += j + 2
+		default:
+			j := i
+			for j < len(s) && s[j] != ' ' && s[j] != '(' && s[j] != ')' {
+				j++
+			}
+			tokn := s[i:j]
+			if r, ok := m[tokn]; ok {
+				sb.WriteString(r)
+			} else {
+				sb.WriteString(tokn)
+			}
+			i = j
+		}
+	}
+	return Term{sb.String(), t.Sort}
+}
+
+// applyMods havocs what a callee may write, at a call site with the given actual inputs.
+func (c *Ctx) applyMods(s *State, fm *fnMods, actualArgs, actualBinds []Value) {
+	for _, h := range fm.Whole {
+		c.havocHeap(s, h)
+	}
+	if len(fm.At) == 0 {
+		return
+	}
+	var actuals []Term
+	for _, a := range actualArgs {
+		flattenAll(a, &actuals)
+	}
+	for _, b := range actualBinds {
+		flattenAll(b, &actuals)
+	}
+	sub := map[string]string{}
+	for i, f := range fm.Formals {
+		if i < len(actuals) {
+			sub[f] = actuals[i].S
+		}
+	}
+	if len(actuals) < len(fm.Formals) {
+		// cannot relate formals to actuals: fall back to whole-heap havoc
+		for _, a := range fm.At {
+			c.havocHeap(s, a.Heap)
+		}
+		return
+	}
+	for _, a := range fm.At {
+		c.havocAt(s, a.Heap, substTerm(a.Base, sub))
+	}
+}
+
+// havocAt forgets the contents of one object in a heap.
+func (c *Ctx) havocAt(s *State, heap string, base Term) {
+	sort, ok := c.eng.heapSorts[heap]
+	if !ok {
+		return
+	}
+	if !strings.HasPrefix(string(sort), "(Array") {
+		c.havocHeap(s, heap)
+		return
+	}
+	h := c.getHeap(s, heap, sort)
+	c.setHeapAt(s, heap, Store(h, base, c.freshConst("hva|"+heap, arrElemSort(sort))), base)
 }
 
 // ---------- init-time constants, extracted mechanically ----------
@@ -393,7 +632,51 @@ func (e *Engine) globalConst(c *Ctx, s *State, g *ssa.Global) (Value, bool) {
 // real sources on every run:
 //   service.maxAddrLen     = len(socks.ParseAddr(<literal>)), computed with the same rule
 //   net.privateNetworks    = the CIDR literals in onet's init(), parsed with net.ParseCIDR
+// registerInitIfaceConsts: package-level interface variables initialised once, in init, with a
+// constant value of a concrete type (e.g. RandomServerSaltGenerator = randomServerSaltGenerator{}).
+func (e *Engine) registerInitIfaceConsts() {
+	for _, sp := range e.spkgs {
+		if sp == nil || !e.repoPkgPaths[sp.Pkg.Path()] {
+			continue
+		}
+		initFn := sp.Func("init")
+		if initFn == nil {
+			continue
+		}
+		for _, b := range initFn.Blocks {
+			for _, in := range b.Instrs {
+				st, ok := in.(*ssa.Store)
+				if !ok {
+					continue
+				}
+				g, ok := st.Addr.(*ssa.Global)
+				if !ok {
+					continue
+				}
+				mi, ok := st.Val.(*ssa.MakeInterface)
+				if !ok {
+					continue
+				}
+				if _, isConst := mi.X.(*ssa.Const); !isConst {
+					continue
+				}
+				if !e.onlyInitStores(g.Pkg.Pkg.Path(), g.Name()) {
+					continue
+				}
+				ct := mi.X.Type()
+				key := g.Pkg.Pkg.Path() + "." + g.Name()
+				gname := g.Name()
+				e.initConsts[key] = func(c *Ctx, s *State) (Value, bool) {
+					c.note("init-time constant " + gname + " holds a " + ct.String() + " (only store is in init)")
+					return c.makeInterface(s, c.zeroValue(ct), ct), true
+				}
+			}
+		}
+	}
+}
+
 func (e *Engine) registerInitConsts() {
+	e.registerInitIfaceConsts()
 	for _, p := range e.pkgs {
 		switch {
 		case strings.HasSuffix(p.PkgPath, "/service"):
@@ -567,4 +850,46 @@ func (e *Engine) functionsForProperty(p string) []*FuncContract {
 	}
 	sort.Slice(out, func(i, j int) bool { return out[i].Key < out[j].Key })
 	return out
+}
+
+// resultTypeOf finds the result type of a function or interface method by contract key.
+func (e *Engine) resultTypeOf(key string) (types.Type, bool) {
+	if fn := e.fnByKey[key]; fn != nil {
+		rt := fn.Signature.Results()
+		if rt.Len() == 1 {
+			return rt.At(0).Type(), true
+		}
+		return rt, true
+	}
+	// any function in the program with that qualified name (dependencies)
+	for fn := range ssautil.AllFunctions(e.prog) {
+		if fn.Pkg == nil && fn.Parent() == nil {
+			continue
+		}
+		if qualFnName(fn) == key {
+			rt := fn.Signature.Results()
+			if rt.Len() == 1 {
+				return rt.At(0).Type(), true
+			}
+			return rt, true
+		}
+	}
+	// interface method: "pkg.Iface.Method"
+	i := strings.LastIndex(key, ".")
+	if i > 0 {
+		if t := e.namedType(key[:i]); t != nil {
+			if it, ok := t.Underlying().(*types.Interface); ok {
+				for j := 0; j < it.NumMethods(); j++ {
+					if it.Method(j).Name() == key[i+1:] {
+						rt := it.Method(j).Type().(*types.Signature).Results()
+						if rt.Len() == 1 {
+							return rt.At(0).Type(), true
+						}
+						return rt, true
+					}
+				}
+			}
+		}
+	}
+	return nil, false
 }
